@@ -231,6 +231,8 @@ func runC19(p *eng.Prog, r *eng.Report, tier string) {
 	decodeTargetsAreFresh(c, "C19.37", inC19)
 	encoderLoopsDoNotFilter(c, "C19.38", inC19)
 	decodersKeepEveryElement(c, "C19.39", inC19)
+	xmlLangTagsNamespaced(c, "C19.40")
+	noLossyInDecoders(c, "C19.41", inC19, 5)
 	c.r.Floor("C19.34", "start-element edges in the token loops of the payload decoders", decoderLoopVisitsEveryChild(c, "C19.34", inC19), 1)
 	ntag := tagNamespaceAgreement(c, "C19.3", inC19)
 	c.r.Note("C19.3: %d decoder tags with an encoder counterpart examined", ntag)
@@ -621,7 +623,7 @@ func noManualEscaping(c *cx, id string, in func(f *eng.Fn) bool) {
 // be true - a field that is only set when an optional attribute is present
 // keeps the previous item's value (the second of <item jid="a"/><item/> is
 // reported as "a" again, without an error).
-func iteratorValuePerItem(c *cx, id string, in func(f *eng.Fn) bool) {
+func iteratorValuePerItem(c *cx, id string, in func(f *eng.Fn) bool, floor ...int) {
 	n := 0
 	for _, f := range c.allFns() {
 		if !in(f) || f.Decl == nil || f.Decl.Name.Name != "Next" || f.Decl.Recv == nil {
@@ -691,7 +693,7 @@ func iteratorValuePerItem(c *cx, id string, in func(f *eng.Fn) bool) {
 			}
 		}
 	}
-	c.r.Floor(id, "reported fields of iterators on true returns", n, 6)
+	c.r.Floor(id, "reported fields of iterators on true returns", n, optFloor(floor, 6))
 }
 
 // decodeTargetsAreFresh (C19.37): an UnmarshalXML method decodes into a fresh
@@ -699,7 +701,7 @@ func iteratorValuePerItem(c *cx, id string, in func(f *eng.Fn) bool) {
 // target alone for children and attributes that are absent, so decoding
 // straight into the receiver (or one of its fields) keeps the previous
 // document's optional values when a value is reused for a second document.
-func decodeTargetsAreFresh(c *cx, id string, in func(f *eng.Fn) bool) {
+func decodeTargetsAreFresh(c *cx, id string, in func(f *eng.Fn) bool, floor ...int) {
 	n := 0
 	for _, f := range c.allFns() {
 		if !in(f) || f.Decl == nil || f.Decl.Name.Name != "UnmarshalXML" || f.Decl.Recv == nil || f.Sig() == nil {
@@ -723,7 +725,7 @@ func decodeTargetsAreFresh(c *cx, id string, in func(f *eng.Fn) bool) {
 			c.r.Check(id, f, "decode target "+f.Norm(cl.Args[0], nil), "E-alias: the target of a Decode / DecodeElement in an UnmarshalXML method is not the receiver or one of its fields (what the document leaves out would keep its old value)", cl.Pos(), bad == "", bad+": optional parts absent from this document keep the values of the previous one")
 		}
 	}
-	c.r.Floor(id, "decode calls in UnmarshalXML methods", n, 15)
+	c.r.Floor(id, "decode calls in UnmarshalXML methods", n, optFloor(floor, 15))
 }
 
 // encoderLoopsDoNotFilter (C19.38): an encoder that writes one child per
@@ -742,7 +744,7 @@ var emissionFilters = map[string][]string{
 	"form.(*Data).TokenReader":  {"*"},
 }
 
-func encoderLoopsDoNotFilter(c *cx, id string, in func(f *eng.Fn) bool) {
+func encoderLoopsDoNotFilter(c *cx, id string, in func(f *eng.Fn) bool, floor ...int) {
 	n := 0
 	for _, f := range c.allFns() {
 		if !in(f) || f.Body == nil {
@@ -787,12 +789,35 @@ func encoderLoopsDoNotFilter(c *cx, id string, in func(f *eng.Fn) bool) {
 				})
 				return found
 			}
+			// what is built up inside one iteration (the attributes of the
+			// element's own start tag) is not the output
+			outside := func(e ast.Expr) bool {
+				root := rootLocal(f, e)
+				return root == nil || root.Pos() < rs.Body.Pos() || root.Pos() > rs.Body.End()
+			}
 			isEmit := func(q eng.Point, x ast.Node) bool {
 				found := false
 				ast.Inspect(x, func(y ast.Node) bool {
-					if cl, ok := y.(*ast.CallExpr); ok && f.CalleeID(cl) == "builtin.append" && len(cl.Args) > 1 {
+					if cl, ok := y.(*ast.CallExpr); ok && f.CalleeID(cl) == "builtin.append" && len(cl.Args) > 1 && outside(cl.Args[0]) {
 						for _, a := range cl.Args[1:] {
 							if mentions(a) {
+								found = true
+							}
+						}
+					}
+					// out = combine(out, ... element ...): the accumulator is an
+					// operand of the call that is assigned back to it
+					if as, ok := y.(*ast.AssignStmt); ok && len(as.Lhs) == 1 && len(as.Rhs) == 1 && outside(as.Lhs[0]) {
+						if cl, ok := ast.Unparen(as.Rhs[0]).(*ast.CallExpr); ok && f.CalleeID(cl) != "builtin.append" {
+							acc, el := false, false
+							for _, a := range cl.Args {
+								if sameExpr(a, as.Lhs[0]) {
+									acc = true
+								} else if mentions(a) {
+									el = true
+								}
+							}
+							if acc && el {
 								found = true
 							}
 						}
@@ -840,7 +865,7 @@ func encoderLoopsDoNotFilter(c *cx, id string, in func(f *eng.Fn) bool) {
 			return true
 		})
 	}
-	c.r.Floor(id, "element loops in encoders", n, 5)
+	c.r.Floor(id, "element loops in encoders", n, optFloor(floor, 5))
 }
 
 // decodersKeepEveryElement (C19.39): an UnmarshalXML method that copies a
@@ -853,7 +878,7 @@ var decodeFilters = map[string]string{
 	"stanza.(*Error).UnmarshalXML": "texts without character data carry nothing (C13.6)",
 }
 
-func decodersKeepEveryElement(c *cx, id string, in func(f *eng.Fn) bool) {
+func decodersKeepEveryElement(c *cx, id string, in func(f *eng.Fn) bool, floor ...int) {
 	n := 0
 	for _, f := range c.allFns() {
 		if !in(f) || f.Decl == nil || f.Decl.Name.Name != "UnmarshalXML" || f.Decl.Recv == nil || f.Sig() == nil || f.Body == nil {
@@ -932,5 +957,5 @@ func decodersKeepEveryElement(c *cx, id string, in func(f *eng.Fn) bool) {
 		})
 		n++
 	}
-	c.r.Floor(id, "UnmarshalXML methods examined for dropped elements", n, 20)
+	c.r.Floor(id, "UnmarshalXML methods examined for dropped elements", n, optFloor(floor, 20))
 }
